@@ -269,6 +269,7 @@ class Interp:
         self.assume_no_wrap = assume_no_wrap
         self.exempt_usize_adds = 0
         self.stable_mut_types = ('regular_expressions::ReManager',)
+        self.exact_casts = set()         # (from, to) integer casts assumed lossless by the rule (stated in its assumptions)
         self._unsat_cache = {}
         self._const_cache = {}
         self._imp_cache = {}
@@ -409,7 +410,7 @@ class Interp:
         if isinstance(v, Clo):
             return ('closure', v.path, tuple(self.to_term(st, x) for x in v.upvars))
         if isinstance(v, Iter):
-            return ('iter', v.kind, self.to_term(st, v.base) if v.base is not None else None, v.pos, v.end)
+            return ('iter', v.kind, self.to_term(st, v.base) if v.base is not None else None, v.pos, v.end, tuple(self.to_term(st, f) for f in v.fns))
         if isinstance(v, ListV):
             return ('list', tuple(v.parts))
         if isinstance(v, Uninit):
@@ -485,6 +486,21 @@ class Interp:
             raise Unanalysable('deref of %r' % (v,))
         raise Unanalysable('projection %r' % (p,))
 
+    def value_of_term(self, st, t):
+        """abstract value for an aggregate term produced by to_term"""
+        if isinstance(t, tuple) and t and t[0] == 'mk':
+            a = self.crate.adts.get(t[1])
+            is_enum = bool(a) and a['kind'] == 'enum'
+            vidx = 0
+            if a:
+                for v in a['variants']:
+                    if v['name'] == t[2]:
+                        vidx = v['idx']
+            return Adt(t[1], t[2], vidx, [self.value_of_term(st, x) for x in t[3]], is_enum)
+        if isinstance(t, tuple) and t and t[0] == 'tuple':
+            return Tup([self.value_of_term(st, x) for x in t[1]])
+        return t
+
     def elem_ty(self, ty):
         if ty is None:
             return None
@@ -527,6 +543,13 @@ class Interp:
             val = self.sym_value(st, t, ety)
             v.over[key] = val
             return val
+        if isinstance(v, ListV):
+            # element of a vector under construction: the last pushed element when the index is provably len-1
+            n = self.listv_len(v)
+            if v.parts and v.parts[-1][0] == 'one' and self.entails(st, T.mk_cmp('eq', T.mk_add(idx, I(1)), n)):
+                t = v.parts[-1][1]
+                return self.value_of_term(st, t)
+            return Sym(('elem', ('list', tuple(v.parts)), idx), None)
         raise Unanalysable('index on %r' % (v,))
 
     def place_loc(self, st, fr, place):
@@ -628,6 +651,10 @@ class Interp:
                     return clone_val(cv, IdentityMemo())
             return self.sym_value(st, ('const', c['named']), ty)
         if 'named' in c and c.get('promoted') is not None:
+            pv = self.eval_promoted(c['named'], c['promoted'])
+            if pv is not None:
+                v = clone_val(pv, IdentityMemo())
+                return v
             return self.sym_value(st, ('promoted', c['named'], c['promoted']), ty)
         dbg = c.get('dbg', '')
         return self.sym_value(st, ('constval', dbg), ty)
@@ -635,6 +662,13 @@ class Interp:
     def operand(self, st, fr, o):
         k = o[0]
         if k in ('copy', 'move'):
+            pty = o[1].get('ty', '')
+            if pty.startswith(('std::boxed::Box<', 'std::ptr::Unique<', 'std::ptr::NonNull<')):
+                # owning pointers are handled by reference so that writes through a copied pointer reach the owner
+                cell, path = self.place_loc(st, fr, o[1])
+                cur = self.load(st, cell, path)
+                if isinstance(cur, Sym):
+                    return Ref(cell, path, True)
             v = self.read_place(st, fr, o[1])
             if v is None:
                 raise Unanalysable('read of uninitialised %s in %s' % (o[1], fr.fn.path))
@@ -773,6 +807,8 @@ class Interp:
             if to_ty in T.INT_RANGES and to_ty != 'bool':
                 if from_ty == 'bool':
                     return T.mk_ite(v, I(1), I(0)) if not T.is_bool(v) else I(1 if v[1] else 0)
+                if (from_ty, to_ty) in self.exact_casts:
+                    return v
                 ok = self.in_range(st, v, to_ty)
                 site = (fr.fn.path, line, 'cast:%s->%s' % (from_ty, to_ty))
                 flo, fhi = T.INT_RANGES.get(from_ty, (None, None))
@@ -1148,7 +1184,7 @@ class Interp:
                         self._havocked_refs_set = havocked_refs
                         cur = self.current_values(o.state, o.state.frames[-1], hav, mapping)
                         self.back_states.append((fn.path, head, o.state, mapping, valid, cur))
-                self.head_states.append((fn.path, head, s0_snapshot, mapping, valid))
+                self.head_states.append((fn.path, head, s0_snapshot, mapping, valid, entry))
                 return final
             dropped |= bad
 
@@ -1255,6 +1291,23 @@ class Interp:
                     self._havocked_refs.append(l)
             else:
                 c.v = hv(c.v, name)
+        # containers that are being iterated mutably: elements may be overwritten in the loop body
+        for c in fr.cells:
+            it = c.v
+            if isinstance(it, Iter) and 'mut' in it.kind and it.base is not None:
+                r = it.base
+                while isinstance(r, Ref):
+                    tv = self.load(st, r.cell, r.path)
+                    if isinstance(tv, Ref):
+                        r = tv
+                    else:
+                        break
+                tv = self.load(st, r.cell, r.path)
+                if isinstance(tv, Sym):
+                    nv = T.var('*iter-target@bb%d#%d.m%d' % (head, inst, len(mapping)))
+                    T.typed(('len', nv), 'usize')
+                    st.assume(T.mk_cmp('eq', ('len', nv), self.len_of(st, tv)))
+                    self.store(st, r.cell, r.path, Sym(nv, tv.ty))
         self._havocked_derefs = []
         for l in derefs:
             v = fr.cells[l].v
@@ -1357,6 +1410,31 @@ class Interp:
         for hv, ev in bools:
             cands += [hv, T.mk_not(hv)]
         return [c for c in cands if not T.is_bool(c)]
+
+    def eval_promoted(self, path, idx):
+        """value of a promoted constant (a reference to a constant aggregate), when its initialiser is closed"""
+        key = ('promoted', path, idx)
+        if key in self._const_cache:
+            return self._const_cache[key]
+        self._const_cache[key] = None
+        body = None
+        for f in self.crate.all_fns:
+            if f.path == path and f.promoted == idx:
+                body = f
+        if body is None or body.arg_count != 0:
+            return None
+        s = State()
+        s.frames = [Frame(body, [Cell() for _ in body.locals])]
+        try:
+            res = [o for o in self.run(s) if o.kind == 'ret']
+        except Unanalysable:
+            res = []
+        if len(res) == 1 and not res[0].state.pc:
+            v = res[0].value
+            closed = isinstance(v, Ref) and isinstance(self.load(res[0].state, v.cell, v.path), (Adt, Tup, tuple))
+            if closed:
+                self._const_cache[key] = v
+        return self._const_cache[key]
 
     def eval_const(self, body):
         """value of a crate-local const item, by interpreting its (argument-free) initialiser"""
